@@ -15,7 +15,36 @@ META = dict(
 
 def tasks(tier):
     from vf.core import Task
-    return [Task('props.wire:run', name='C01/wire.c01_phi_1D_snm', fname='c01_phi_1D_snm', timeout=300), Task('props.wire:run', name='C01/wire.c01_phi_1D_dispatch', fname='c01_phi_1D_dispatch', timeout=300), Task('props.wire:run', name='C01/wire.c01_phi_1D_genic', fname='c01_phi_1D_genic', timeout=300)] + bounded_tasks('C01', tier)
+    return [Task('props.wire:run', name='C01/wire.c01_phi_1D_snm', fname='c01_phi_1D_snm', timeout=300), Task('props.wire:run', name='C01/wire.c01_phi_1D_dispatch', fname='c01_phi_1D_dispatch', timeout=300), Task('props.wire:run', name='C01/wire.c01_phi_1D_genic', fname='c01_phi_1D_genic', timeout=300),
+            Task('props.C01:t_kernel_1d', name='C01/kernel.implicit_1Dx', timeout=900),
+            Task('props.C01:t_driver_1d', name='C01/wire.one_pop.step', timeout=600),
+            Task('props.C01:t_const_1d', name='C01/wire.one_pop.const', timeout=600)] + bounded_tasks('C01', tier)
+
+
+def _rename(rs):
+    for r in rs:
+        r['id'] = r['id'].replace('C02/', 'C01/', 1)
+        if r.get('finding_key'):
+            r['finding_key'] = r['finding_key'].replace('C02/', 'C01/', 1)
+    return rs
+
+
+def t_kernel_1d():
+    """the one-population kernel against the shared contracts (same kernel contract as C02: V = Vfunc_beta(x, nu, beta), M = Mfunc1D, delj, a/b/c, Thomas solve)"""
+    from contracts.c_kernels import verify_kernel
+    return verify_kernel('dadi/integration1D.c', 'implicit_1Dx', pid='C01')
+
+
+def t_driver_1d():
+    """one step of the time-dependent one-population driver: influx, then the kernel with the current (nu, gamma, h, beta), dt from _compute_dt"""
+    from contracts import py_wiring as W
+    return _rename(W.c02_driver_step(1, ()))
+
+
+def t_const_1d():
+    """the constant-parameter one-population driver assembles the same tridiagonal system as the kernel (n = 4 grid points, all values symbolic)"""
+    from contracts import py_wiring as W
+    return _rename(W.c02_const_1d(4))
 
 
 MANIFEST_ENTRY = dict(
